@@ -299,6 +299,12 @@ def _enum_pair(ctx, ty):
             continue
         pvs = path_variants(prog, pd, o["conds"])
         src = pvs.get(("param", 0))
+        if src is None:
+            # decoded through the plain Label first: its Int / Text variants stand for the Integer / Text wire variants
+            from lib.prov import strip_sites
+            for k, names in pvs.items():
+                if strip_sites(k) == ("tryok", ("call", "<common::Label as common::AsCborValue>::from_cbor_value", (("param", 0),))):
+                    src = {{"Int": "Integer", "Text": "Text"}.get(n, n) for n in names}
         inner = o["inner"]
         if src and len(src) == 1 and inner[0] == "aggr" and inner[1] == self_adt:
             dec.setdefault(next(iter(src)), set()).add(inner[2])
